@@ -311,7 +311,13 @@ def pred_clo_ret_then_capture(chain):
     return False
 
 
-KNOWN_PREDS = {"clo_ret_then_capture": pred_clo_ret_then_capture}
+def pred_validator_guard_else_arm(chain):
+    """an early-return validator guard on the carrier itself sits on the else arm of an opaque branch"""
+    return any(s_ in ("val_guard_same", "valerr_guard_same") and d == "else" for s_, d in chain)
+
+
+KNOWN_PREDS = {"clo_ret_then_capture": pred_clo_ret_then_capture,
+               "validator_guard_else_arm": pred_validator_guard_else_arm}
 
 
 def known_construct(ctx, chain, cfgs):
